@@ -7,8 +7,8 @@ import pywt
 
 
 def roll(x, n, dim, make_even=False):
-    if n < 0:
-        n = x.shape[dim] + n
+    # Shifts larger than the signal (filters longer than the signal) wrap around
+    n = n % x.shape[dim]
 
     if make_even and x.shape[dim] % 2 == 1:
         end = 1
@@ -23,6 +23,23 @@ def roll(x, n, dim, make_even=False):
         return torch.cat((x[:,:,-n:], x[:,:,:-n+end]), dim=2)
     elif dim == 3 or dim == -1:
         return torch.cat((x[:,:,:,-n:], x[:,:,:,:-n+end]), dim=3)
+
+
+def fold(y, n, dim):
+    """ Adds everything beyond the first n samples of y back onto its start
+    with period n, i.e. the wrap-around of a periodized convolution. A filter
+    longer than the signal wraps around more than once.
+    """
+    out = y.narrow(dim, 0, n)
+    for start in range(n, y.shape[dim], n):
+        k = min(n, y.shape[dim] - start)
+        seg = y.narrow(dim, start, k)
+        if k == n:
+            out = out + seg
+        else:
+            out = torch.cat((out.narrow(dim, 0, k) + seg,
+                             out.narrow(dim, k, n - k)), dim=dim)
+    return out
 
 
 def mypad(x, pad, mode='constant', value=0):
@@ -141,13 +158,7 @@ def afb1d(x, h0, h1, mode='zero', dim=-1):
         x = roll(x, -L2, dim=d)
         pad = (L-1, 0) if d == 2 else (0, L-1)
         lohi = F.conv2d(x, h, padding=pad, stride=s, groups=C)
-        N2 = N//2
-        if d == 2:
-            lohi[:,:,:L2] = lohi[:,:,:L2] + lohi[:,:,N2:N2+L2]
-            lohi = lohi[:,:,:N2]
-        else:
-            lohi[:,:,:,:L2] = lohi[:,:,:,:L2] + lohi[:,:,:,N2:N2+L2]
-            lohi = lohi[:,:,:,:N2]
+        lohi = fold(lohi, N//2, d)
     else:
         # Calculate the pad size
         outsize = pywt.dwt_coeff_len(N, L, mode=mode)
@@ -256,12 +267,7 @@ def sfb1d(lo, hi, g0, g1, mode='zero', dim=-1):
     if mode == 'per' or mode == 'periodization':
         y = F.conv_transpose2d(lo, g0, stride=s, groups=C) + \
             F.conv_transpose2d(hi, g1, stride=s, groups=C)
-        if d == 2:
-            y[:,:,:L-2] = y[:,:,:L-2] + y[:,:,N:N+L-2]
-            y = y[:,:,:N]
-        else:
-            y[:,:,:,:L-2] = y[:,:,:,:L-2] + y[:,:,:,N:N+L-2]
-            y = y[:,:,:,:N]
+        y = fold(y, N, d)
         y = roll(y, 1-L//2, dim=dim)
     else:
         if mode == 'zero' or mode == 'symmetric' or mode == 'reflect' or \
@@ -571,9 +577,7 @@ def afb2d_nonsep(x, filts, mode='zero'):
         stride = (2, 2)
         x = roll(roll(x, -Ly//2, dim=2), -Lx//2, dim=3)
         y = F.conv2d(x, f, padding=pad, stride=stride, groups=C)
-        y[:,:,:Ly//2] += y[:,:,Ny//2:Ny//2+Ly//2]
-        y[:,:,:,:Lx//2] += y[:,:,:,Nx//2:Nx//2+Lx//2]
-        y = y[:,:,:Ny//2, :Nx//2]
+        y = fold(fold(y, Ny//2, 2), Nx//2, 3)
     elif mode == 'zero' or mode == 'symmetric' or mode == 'reflect':
         # Calculate the pad size
         out1 = pywt.dwt_coeff_len(Ny, Ly, mode=mode)
@@ -790,9 +794,7 @@ def sfb2d_nonsep(coeffs, filts, mode='zero'):
     x = coeffs.reshape(coeffs.shape[0], -1, coeffs.shape[-2], coeffs.shape[-1])
     if mode == 'periodization' or mode == 'per':
         ll = F.conv_transpose2d(x, f, groups=C, stride=2)
-        ll[:,:,:Ly-2] += ll[:,:,2*Ny:2*Ny+Ly-2]
-        ll[:,:,:,:Lx-2] += ll[:,:,:,2*Nx:2*Nx+Lx-2]
-        ll = ll[:,:,:2*Ny,:2*Nx]
+        ll = fold(fold(ll, 2*Ny, 2), 2*Nx, 3)
         ll = roll(roll(ll, 1-Ly//2, dim=2), 1-Lx//2, dim=3)
     elif mode == 'symmetric' or mode == 'zero' or mode == 'reflect' or \
             mode == 'periodic':
